@@ -21,6 +21,7 @@ import argparse
 import fcntl
 import hashlib
 import importlib
+import itertools
 import json
 import os
 import random
@@ -314,7 +315,10 @@ def check(prop, tier, seed, replay=None):
         payload = json.load(open(replay))
         gen = iter(payload.get("lines") or [payload["line"]])
     else:
-        gen = iter(plugin.cases(rng, "thorough" if boost else tier))
+        gen = iter(plugin.cases(rng, tier))
+        if boost and tier != "thorough":
+            # the tier's own cases first (so that the cap below never starves a late generator), then the deep ones
+            gen = itertools.chain(gen, plugin.cases(rng, "thorough"))
     # a broken proof leg raises a quick run to the thorough generator: the failing-input search.  It stops
     # early once enough failing inputs are in hand, and is capped so that a quick check stays a quick check.
     cap_cases = 200000 if (boost and tier == "quick") else None
@@ -387,7 +391,15 @@ def check(prop, tier, seed, replay=None):
         if l in oracle_failed_lines:
             continue
         corr_unexplained.append((l, o, m))
-    if corr_unexplained:
+    have_input = [v for v in violations if v[0] == "oracle"]
+    if corr_unexplained and have_input:
+        # a failing input is in hand: the remaining disagreements are recorded with it, not as a separate
+        # no-failing-input-found report
+        l, o, m = min(corr_unexplained, key=lambda x: len(x[0]))
+        have_input[0][1]["other_disagreements"] = {
+            "count": len(corr_unexplained), "shortest": {"line": l, "implementation_output": o, "model_output": m},
+            "note": "model and implementation also differ on these inputs, on which the property itself holds"}
+    elif corr_unexplained:
         l, o, m = min(corr_unexplained, key=lambda x: len(x[0]))
         violations.append(("correspondence", {
             "property": prop, "kind": "correspondence broken: model and implementation disagree",
